@@ -557,6 +557,8 @@ pub struct Sim {
     /// when set, delivered bytes are collected here instead of being handed to the transport
     pub capture: Option<Vec<u8>>,
     pub run_epoch: usize,
+    /// deliver inbound bytes in chunks of this size, settling after each chunk
+    pub trickle: Option<usize>,
 }
 
 impl Sim {
@@ -598,6 +600,7 @@ impl Sim {
             parked: Vec::new(),
             capture: None,
             run_epoch: 0,
+            trickle: None,
         };
         s.cmd(Cmd::SetUp(reader, writer));
         s
@@ -867,6 +870,17 @@ impl Sim {
         if let Some(c) = self.capture.as_mut() {
             c.extend_from_slice(bytes);
             return;
+        }
+        if let Some(k) = self.trickle {
+            if bytes.len() > k {
+                self.trickle = None;
+                for c in bytes.chunks(k.max(1)) {
+                    self.feed(c);
+                    self.settle();
+                }
+                self.trickle = Some(k);
+                return;
+            }
         }
         let w = {
             let mut r = self.reader.0.borrow_mut();
